@@ -49,7 +49,8 @@ Definition lines (s : str) : list str := lines_fuel (S (length s)) s.
 
 (* abstract bufio.Scanner: [buf] = unconsumed buffered bytes, [rest] = bytes not yet delivered,
    [counts] = sizes of the successive reads (0 allowed); when [counts] is exhausted the remaining bytes
-   arrive and end-of-file is seen.  Buffer capacity is not modelled here (see [too_long]). *)
+   arrive and end-of-file is seen.  Buffer capacity (bufio.MaxScanTokenSize, ErrTooLong) is not modelled: the reader
+   models take the scanner's final error as an input flag and the harness exercises over-long lines directly. *)
 Fixpoint scan_abs (fuel : nat) (buf rest : str) (counts : list nat) : list str :=
   match fuel with
   | O => []
@@ -74,6 +75,14 @@ Definition scan (data : str) (counts : list nat) : list str :=
    "any error seen"), then stops; Err() = the error.  Tokens = lines of the delivered prefix. *)
 Definition scan_fail (data : str) (k : nat) (counts : list nat) : list str * bool :=
   (scan (firstn k data) counts, true).
+
+(* how the underlying stream ends: at end-of-file after all the data, or with an error after [k] bytes *)
+Inductive stream_end := SEof | SFail (k : nat).
+Definition scan_stream (data : str) (e : stream_end) (counts : list nat) : list str * bool :=
+  match e with
+  | SEof => (scan data counts, false)
+  | SFail k => scan_fail data k counts
+  end.
 
 (* bufio.MaxScanTokenSize (65536): ErrTooLong is a behaviour of the library's buffer, not of this code; the reader
    models take the scanner's final error as an input and the harness exercises over-long lines directly. *)
